@@ -238,7 +238,7 @@ static bool same(const Ans &a, const Ans &b)
   if (a.threw) return true;
   if (a.tag != b.tag) return false;
   for (size_t i = 0; i < a.v.size(); ++i)
-    if (!close_rel(a.v[i], b.v[i], i == 0 ? 1e-6 : 1e-7, 1e-9)) return false;
+    if (!close_rel(a.v[i], b.v[i], 1e-6, 1e-9)) return false;
   return true;
 }
 
@@ -323,7 +323,7 @@ static Result check_motion(const J &c)
       std::string what;
       if (a.threw != b.threw) what = a.threw ? "original threw, moved answered" : "moved threw, original answered";
       else if (a.tag != b.tag) what = "tag '" + a.tag + "' vs '" + b.tag + "'";
-      else for (size_t i = 0; i < a.v.size(); ++i) if (!close_rel(a.v[i], b.v[i], i == 0 ? 1e-6 : 1e-7, 1e-9)) { what = "value " + std::to_string(i) + ": " + fmt(a.v[i]) + " vs " + fmt(b.v[i]); break; }
+      else for (size_t i = 0; i < a.v.size(); ++i) if (!close_rel(a.v[i], b.v[i], 1e-6, 1e-9)) { what = "value " + std::to_string(i) + ": " + fmt(a.v[i]) + " vs " + fmt(b.v[i]); break; }
       // classification of the root cause by the feature type that owns the point in the original world
       std::string owner = "?";
       for (auto &f : root.at("features").a) { const std::string tg = f.has("tag") ? f.at("tag").str() : f.at("model").str(); if (tg == a.tag || tg == b.tag) owner = f.at("model").str(); }
@@ -341,7 +341,7 @@ int main(int argc, char **argv)
 {
   return run_main("C08", argc, argv,
   {
-    {"rigid_motion", "worlds with 1..4 features of every type (ridges, dip points, curved trenches, cross section, water content, point-wise depth surfaces with up to 14 interior points) x a rigid motion (cartesian: rotation about the vertical by any angle incl. 90/180/270 + translation up to 1e7 m; spherical: common longitude offset, 75% of them carrying a feature onto +-180 or a full turn, longitudes kept within [-360,360]) x 3..12 feature-aimed queries; temperature, compositions, grains and tag string compared (1e-6 / 1e-7 relative), boundary-robust. Non-trivial: point inside a feature and motion not the identity", 80, gen_motion_case, check_motion, 100, true, true},
+    {"rigid_motion", "worlds with 1..4 features of every type (ridges, dip points, curved trenches, cross section, water content, point-wise depth surfaces with up to 14 interior points) x a rigid motion (cartesian: rotation about the vertical by any angle incl. 90/180/270 + translation up to 1e7 m; spherical: common longitude offset, 75% of them carrying a feature onto +-180 or a full turn, longitudes kept within [-360,360]) x 3..12 feature-aimed queries; temperature, compositions, grains and tag string compared (1e-6 relative: the trench foot comes from a Newton iteration with a stated tolerance), boundary-robust. Non-trivial: point inside a feature and motion not the identity", 80, gen_motion_case, check_motion, 100, true, true},
     {"ridge_longitude_alias", "spherical worlds whose temperature depends on the closest ridge point (oceanic plate with plate / half space model, 40% with a mass conserving slab) with an oblique 2..4-point ridge and one spreading velocity per ridge point x a longitude offset that carries plate and ridge onto +-180, to +-330, a full turn, or anywhere in [-300,300] x 4..10 queries inside plate / slab; same comparison as rigid_motion. Non-trivial: point inside a feature and offset not zero", 40, gen_ridge_alias_case, check_motion, 100, true, true},
   });
 }
